@@ -254,7 +254,7 @@ func DriveB(lg *sim.Log, seed int64, runs, steps int) {
 				amt := debt + []int64{0, 0, 7, -9}[k/2%4]
 				u := rng.PickS(Users)
 				cur = r.execB(w, cur, "Deposit", map[string]interface{}{"coll": int64(AssetAtom), "debt": int64(AssetCmst), "u": u, "prem": p, "amt": amt, "denom": "ucmst"})
-				if rng.Pick(3) == 0 { // a second depositor at the same premium
+				if k/2%4 == 1 { // exact deposit with a second depositor at the same premium (k/2%4 == 0: the exact deposit is alone there)
 					cur = r.execB(w, cur, "Deposit", map[string]interface{}{"coll": int64(AssetAtom), "debt": int64(AssetCmst), "u": rng.PickS(Users), "prem": p, "amt": int64(5), "denom": "ucmst"})
 				}
 				// price(t) = 1.2 * oracle * (T0 - t) / T0, T0 = trunc(A2 / 0.3); premium p is reached at t = T0 * (0.2 + p/100) / 1.2
